@@ -25,7 +25,8 @@ from fractions import Fraction
 
 import z3
 
-REPO = "/repo"
+import os as _os
+REPO = _os.environ.get("S2T_REPO", "/repo").rstrip("/")
 
 
 class BoundExceeded(BaseException):
@@ -45,6 +46,7 @@ class Unsupported(Exception):
 
 
 _CUR = None  # the active context (SymCtx or ConcreteCtx)
+_TRUE = z3.BoolVal(True)
 
 
 def cur():
@@ -735,7 +737,7 @@ def sym_int(x=0, base=None):
     if isinstance(x, CharStr):
         s_ = x.concrete()
         if s_ is None:
-            _unsupported("int(CharStr with symbolic characters)")
+            return x.to_int(10 if base is None else base)
         return int(s_) if base is None else int(s_, base)
     if base is not None:
         return int(x, base)
@@ -943,6 +945,89 @@ def sym_abs(x):
     if isinstance(x, SymBV):
         return x
     return abs(x)
+
+
+class SymStructFmt:
+    """struct.Struct stand-in for fixed-size integer formats on symbolic bytes
+    (endianness prefix < > ! =, codes B H I L Q and signed b h i l q, x padding)"""
+    _SIZES = {"B": 1, "H": 2, "I": 4, "L": 4, "Q": 8, "b": 1, "h": 2, "i": 4, "l": 4, "q": 8, "x": 1}
+
+    def __init__(self, fmt):
+        import struct as _struct
+        self.format = fmt
+        self._real = _struct.Struct(fmt)
+        self.size = self._real.size
+        self._order = "big" if fmt[:1] in (">", "!") else "little"
+        body = fmt[1:] if fmt[:1] in "<>!=@" else fmt
+        self._codes = []
+        num = ""
+        for ch in body:
+            if ch.isdigit():
+                num += ch
+                continue
+            self._codes += [ch] * (int(num) if num else 1)
+            num = ""
+
+    def unpack_from(self, data, offset=0):
+        if isinstance(data, (bytes, bytearray, memoryview)):
+            return self._real.unpack_from(data, offset)
+        import struct as _struct
+        off = _to_index(offset)
+        if off < 0 or off + self.size > len(data):
+            raise _struct.error("unpack_from requires a buffer of at least %d bytes" % self.size)
+        out, p_ = [], off
+        for c in self._codes:
+            n = self._SIZES[c]
+            if c != "x":
+                out.append(_from_bytes(data[p_:p_ + n], self._order, signed=c.islower()))
+            p_ += n
+        return tuple(out)
+
+    def unpack(self, data):
+        if isinstance(data, (bytes, bytearray, memoryview)):
+            return self._real.unpack(data)
+        import struct as _struct
+        if len(data) != self.size:
+            raise _struct.error("unpack requires a buffer of %d bytes" % self.size)
+        return self.unpack_from(data, 0)
+
+
+class SymStructMod:
+    """the name ``struct`` as seen from a module under test"""
+    import struct as _s
+    error = _s.error
+    Struct = SymStructFmt
+
+    @staticmethod
+    def unpack(fmt, data):
+        return SymStructFmt(fmt).unpack(data)
+
+    @staticmethod
+    def unpack_from(fmt, data, offset=0):
+        return SymStructFmt(fmt).unpack_from(data, offset)
+
+    @staticmethod
+    def calcsize(fmt):
+        return SymStructFmt(fmt).size
+
+    @staticmethod
+    def pack(fmt, *a):
+        import struct as _struct
+        return _struct.pack(fmt, *a)
+
+
+def sym_chr(x):
+    if isinstance(x, (SymInt, SymBV)):
+        return CharStr([x if isinstance(x, SymInt) else x.to_int()])
+    return CharStr([int(x)])
+
+
+def sym_ord(x):
+    if isinstance(x, CharStr):
+        if len(x.c) != 1:
+            raise TypeError("ord() expected a character")
+        return x.c[0]
+    return ord(x)
 
 
 def sym_bool(x=False):
@@ -1369,12 +1454,83 @@ class CharStr:
         return CharStr(out)
 
     def isdigit(self):
+        return self._all_in([(48, 57)])
+
+    def _all_in(self, ranges):
         if not self.c:
             return False
-        return self._conj([(SymInt(_as_int_term(ch)) >= 48).z if not isinstance(ch, int) else (48 <= ch <= 57)
-                           for ch in self.c] +
-                          [(SymInt(_as_int_term(ch)) <= 57).z if not isinstance(ch, int) else True
-                           for ch in self.c])
+        parts = []
+        for ch in self.c:
+            if isinstance(ch, int):
+                if not any(lo <= ch <= hi for lo, hi in ranges):
+                    return False
+                continue
+            t = _as_int_term(ch)
+            parts.append(z3.Or(*[z3.And(t >= lo, t <= hi) for lo, hi in ranges]))
+        return self._conj(parts)
+
+    def isalpha(self):
+        """ASCII letters (the harnesses bound characters to ASCII)"""
+        return self._all_in([(65, 90), (97, 122)])
+
+    def isalnum(self):
+        return self._all_in([(48, 57), (65, 90), (97, 122)])
+
+    def isspace(self):
+        return self._all_in([(9, 13), (32, 32)])
+
+    def isupper(self):
+        return self._all_in([(65, 90)])
+
+    def islower(self):
+        return self._all_in([(97, 122)])
+
+    def to_int(self, base=10):
+        """int(str, base) semantics on ASCII text: surrounding white space stripped, optional sign,
+        optional 0x/0o/0b prefix matching the base, digits with single underscores between them;
+        forks on each character test; raises ValueError otherwise"""
+        body = self.strip()
+        codes = list(body.c)
+
+        def is_(ch, *vals):
+            r = CharStr._disj([CharStr._eqc(ch, v) for v in vals])
+            return r if isinstance(r, bool) else bool(r)
+
+        neg = False
+        if codes and is_(codes[0], 45, 43):
+            neg = is_(codes[0], 45)
+            codes = codes[1:]
+        prefix = {16: (120, 88), 8: (111, 79), 2: (98, 66)}.get(base)
+        if prefix and len(codes) >= 2 and is_(codes[0], 48) and is_(codes[1], *prefix):
+            codes = codes[2:]
+            if codes and is_(codes[0], 95):
+                codes = codes[1:]
+        if not codes:
+            raise ValueError("invalid literal for int()")
+        val = 0
+        prev_us = True          # an underscore may not lead, trail or repeat
+        for k_, ch in enumerate(codes):
+            if not prev_us and k_ < len(codes) - 1 and is_(ch, 95):
+                prev_us = True
+                continue
+            prev_us = False
+            if isinstance(ch, int):
+                try:
+                    d = int(chr(ch), base)
+                except ValueError:
+                    raise ValueError("invalid literal for int()")
+                val = val * base + d
+                continue
+            t = _as_int_term(ch)
+            ranges = [(48, min(57, 47 + base))]
+            if base > 10:
+                ranges += [(65, 54 + base), (97, 86 + base)]
+            ok = z3.Or(*[z3.And(t >= lo, t <= hi) for lo, hi in ranges])
+            if not _CUR.decide(ok):
+                raise ValueError("invalid literal for int()")
+            d = z3.If(t <= 57, t - 48, z3.If(t <= 90, t - 55, t - 87))
+            val = val * base + SymInt(d)
+        return -val if neg else val
 
     def encode(self, *a, **k):
         s_ = self.concrete()
@@ -1712,6 +1868,29 @@ class SymCtx(_Base):
     def flag(self, name):
         return bool(self.choice(name, 2))
 
+    def pick(self, name, n):
+        """like ``choice`` but creates no z3 variable: the value is recorded directly as an
+        input of the path (cheap; for harnesses with many structure decisions per path)"""
+        nm = self._name(name)
+        if n <= 1:
+            self.inputs[nm] = 0
+            return 0
+        i = len(self.trace)
+        if i < len(self.prefix):
+            val = int(self.prefix[i])
+        else:
+            if i >= self.run.max_depth:
+                raise BoundExceeded(f"decision depth {i} reached")
+            kind, site = self._site()
+            self.run.fork_sites[kind][site] = self.run.fork_sites[kind].get(site, 0) + 1
+            base = [t for _, t in self.trace]
+            for alt in range(n - 1, 0, -1):
+                self.run.work.append(base + [alt])
+            val = 0
+        self.trace.append((_TRUE, val))
+        self.inputs[nm] = val
+        return val
+
     def conc(self, v, lo, hi):
         """fork a small symbolic int into its concrete values (binary splitting)"""
         if isinstance(v, int):
@@ -1763,6 +1942,9 @@ class SymCtx(_Base):
             fn = f.f_code.co_filename
             if fn.startswith(REPO + "/"):
                 return "repo", f"{fn[len(REPO) + 1:]}:{f.f_lineno}"
+            if fn.startswith("<lifted sharepoint2text"):
+                # repository source lifted to symbolic strings (vf/lift.py); line = line in function
+                return "repo", f"{fn[1:-1]}:+{f.f_lineno}"
             if first is None and not fn.endswith("symrun.py"):
                 first = f"{fn.rsplit('/', 1)[-1]}:{f.f_lineno}"
             f = f.f_back
@@ -1890,7 +2072,7 @@ class SymCtx(_Base):
             m = self.solver.model()
             inputs = {}
             for n, v in self.inputs.items():
-                inputs[n] = _pyval(m.eval(v, model_completion=True))
+                inputs[n] = v if isinstance(v, int) else _pyval(m.eval(v, model_completion=True))
             self.solver.pop()
             cex = Counterexample(label, inputs, {k: _jsonable(v) for k, v in info.items()},
                                  self.run.stats["paths"])
@@ -1983,6 +2165,9 @@ class ConcreteCtx(_Base):
     def flag(self, name):
         return bool(self.fresh_int(name, 0, 1))
 
+    def pick(self, name, n):
+        return self.fresh_int(name, 0, n - 1)
+
     def conc(self, v, lo, hi):
         return int(v)
 
@@ -2038,6 +2223,7 @@ class Run:
         self.errors = []
         self.samples = []
         self.path_models = []
+        self.max_cex = 60
         self.model_budget = 12
         self.model_stride = 97
         self.wall_s = 0.0
@@ -2059,6 +2245,7 @@ def explore(harness, **kw):
         ctx = SymCtx(run, prefix)
         prev = _CUR
         _CUR = ctx
+        n_cex_before = len(run.counterexamples)
         try:
             harness(ctx)
         except PathAbort:
@@ -2090,16 +2277,24 @@ def explore(harness, **kw):
                                 "pc": [str(c)[:120] for c, _ in ctx.trace][:6]})
         # a model of this (passing) path, to be re-executed concretely against the real code
         np_ = run.stats["paths"]
+        # (a path on which a counterexample was found is not a passing path: any other model
+        # of its path condition may violate as well)
         if ctx.requires_reached and len(run.path_models) < run.model_budget and \
+                len(run.counterexamples) == n_cex_before and \
                 (np_ <= 4 or np_ % run.model_stride == 0):
             try:
                 if ctx.solver.check() == z3.sat:
                     m = ctx.solver.model()
-                    run.path_models.append({n: _pyval(m.eval(v, model_completion=True))
+                    run.path_models.append({n: (v if isinstance(v, int) else
+                                                _pyval(m.eval(v, model_completion=True)))
                                             for n, v in ctx.inputs.items()})
             except Exception:
                 pass
         if run.stop_on_first and run.counterexamples:
+            break
+        if len(run.counterexamples) >= run.max_cex:
+            # plenty of counterexamples for the report; the part is not explored further
+            run.notes["stopped_after_max_counterexamples"] = run.max_cex
             break
         if len(run.errors) > 5:
             break
